@@ -13,7 +13,7 @@
  * liveness and per-thread observation hashes).  Every run (a prefix of a behaviour) is written as
  * NDJSON events, judged by TLC (spec/TraceConc.tla).
  *
- * usage: drv_conc <out> <clr 0|1> <maxruns> <scenario>...     scenario = nt:role,op:role,op[:role,op]
+ * usage: drv_conc <out> <clr 0|1> <maxruns> <scenario>...     scenario = nt:role,op[+op]:role,op[+op][:role,op[+op]]
  *        maxruns > 0: exhaustive enumeration (at most maxruns runs per scenario)
  *        maxruns < 0: -maxruns randomly sampled schedules per scenario (seed from VERIF_SEED), no pruning
  *        roles: owner weak both none     ops: reset1 share wfrom lock wreset get1 uniq1 none
@@ -36,8 +36,10 @@ void *__real_malloc(size_t); void __real_free(void *);
 
 /* ---- scenario ---- */
 static int NT, HASCLR;
-static char role[MAXT][8], op0[MAXT][8];
-static const char *prog[MAXT][4];
+#define MAXOPS 3
+static char role[MAXT][8], op0[MAXT][MAXOPS][8];
+static int nop0[MAXT];                 /* operations before the clean-up */
+static const char *prog[MAXT][MAXOPS + 3];
 static cstl_shared_ptr_t S1[MAXT], S2[MAXT], SP0;
 static cstl_weak_ptr_t W[MAXT];
 
@@ -183,7 +185,7 @@ static void tramp(int t)
 {
     int i;
     cur = t;
-    for (i = 0; i < 4; i++) do_op(t, prog[t][i]);
+    for (i = 0; i < nop0[t] + 3; i++) do_op(t, prog[t][i]);
     done[t] = 1; pend[t].kind[0] = 0;
     swapcontext(&tctx[t], &sched_ctx);
 }
@@ -248,8 +250,12 @@ static void run(const sched_t *pre, const char *scen)
     setup();
     fprintf(out, "{\"e\":\"reset\",\"nt\":%d,\"clr\":%s,\"scen\":\"%s\",\"roles\":[", NT, HASCLR ? "true" : "false", scen);
     for (t = 0; t < NT; t++) fprintf(out, "%s\"%s\"", t ? "," : "", role[t]);
-    fputs("],\"ops\":[", out);
-    for (t = 0; t < NT; t++) fprintf(out, "%s\"%s\"", t ? "," : "", op0[t]);
+    fputs("],\"progs\":[", out);
+    for (t = 0; t < NT; t++) {
+        fprintf(out, "%s[", t ? "," : "");
+        for (i = 0; i < nop0[t]; i++) fprintf(out, "%s\"%s\"", i ? "," : "", op0[t][i]);
+        fputc(']', out);
+    }
     fprintf(out, "],\"mem\":%s,\"clrs\":%d}\n", blk[1].live ? "true" : "false", clrs);
     for (t = 0; t < NT; t++) { getcontext(&tctx[t]); tctx[t].uc_stack.ss_sp = stk[t]; tctx[t].uc_stack.ss_size = STK; tctx[t].uc_link = &sched_ctx; makecontext(&tctx[t], (void (*)(void))tramp, 1, t); }
     in_threads = 1;
@@ -311,8 +317,17 @@ int main(int argc, char **argv)
             tok = strtok_r(NULL, ":", &save); if (!tok) return 64;
             comma = strchr(tok, ','); if (!comma) return 64;
             *comma = 0;
-            snprintf(role[t], sizeof role[t], "%s", tok); snprintf(op0[t], sizeof op0[t], "%s", comma + 1);
-            prog[t][0] = op0[t]; prog[t][1] = cleanup[0]; prog[t][2] = cleanup[1]; prog[t][3] = cleanup[2];
+            snprintf(role[t], sizeof role[t], "%s", tok);
+            {   /* op1[+op2[+op3]] */
+                char *o = comma + 1, *plus; int k = 0;
+                while (o && k < MAXOPS) {
+                    plus = strchr(o, '+'); if (plus) *plus = 0;
+                    snprintf(op0[t][k], sizeof op0[t][k], "%s", o); prog[t][k] = op0[t][k]; k++;
+                    o = plus ? plus + 1 : NULL;
+                }
+                nop0[t] = k;
+                prog[t][k] = cleanup[0]; prog[t][k + 1] = cleanup[1]; prog[t][k + 2] = cleanup[2];
+            }
         }
         memset(visited, 0, sizeof(unsigned long) * VSZ); nvisited = 0; nstack = 0;
         { sched_t empty; empty.len = 0; push(&empty); }
